@@ -270,3 +270,75 @@ func vpIsRejection(m ServerMsg) bool {
 	}
 	return false
 }
+
+// vpUnchanged: got is the message want, unchanged. The same object is; a different object
+// of a different type or with different scalar fields is not; an equal-looking copy whose
+// nested event/filters are the same objects is; any other copy is outside what this
+// comparison can judge (the path ends INCONCLUSIVE rather than accusing a faithful copy).
+func vpUnchanged(got, want any) bool {
+	if vpSameObject(got, want) {
+		return true
+	}
+	sameFilters := func(a, b []*ReqFilter) bool {
+		if len(a) != len(b) {
+			return false
+		}
+		for i := range a {
+			if a[i] != b[i] {
+				vpUnsupported("a message was forwarded as a copy with copied filters: identity comparison cannot judge it")
+			}
+		}
+		return true
+	}
+	sameEvent := func(a, b *Event) bool {
+		if a != b {
+			vpUnsupported("a message was forwarded as a copy with a copied event: identity comparison cannot judge it")
+		}
+		return true
+	}
+	switch w := want.(type) {
+	case *ClientEventMsg:
+		g, ok := got.(*ClientEventMsg)
+		return ok && g != nil && sameEvent(g.Event, w.Event)
+	case *ClientAuthMsg:
+		g, ok := got.(*ClientAuthMsg)
+		return ok && g != nil && sameEvent(g.Event, w.Event)
+	case *ClientReqMsg:
+		g, ok := got.(*ClientReqMsg)
+		return ok && g != nil && g.SubscriptionID == w.SubscriptionID && sameFilters(g.ReqFilters, w.ReqFilters)
+	case *ClientCountMsg:
+		g, ok := got.(*ClientCountMsg)
+		return ok && g != nil && g.SubscriptionID == w.SubscriptionID && sameFilters(g.ReqFilters, w.ReqFilters)
+	case *ClientCloseMsg:
+		g, ok := got.(*ClientCloseMsg)
+		return ok && g != nil && g.SubscriptionID == w.SubscriptionID
+	case *ServerEOSEMsg:
+		g, ok := got.(*ServerEOSEMsg)
+		return ok && g != nil && g.SubscriptionID == w.SubscriptionID
+	case *ServerEventMsg:
+		g, ok := got.(*ServerEventMsg)
+		return ok && g != nil && g.SubscriptionID == w.SubscriptionID && sameEvent(g.Event, w.Event)
+	case *ServerNoticeMsg:
+		g, ok := got.(*ServerNoticeMsg)
+		return ok && g != nil && g.Message == w.Message
+	case *ServerOKMsg:
+		g, ok := got.(*ServerOKMsg)
+		return ok && g != nil && g.EventID == w.EventID && g.Accepted == w.Accepted && g.Msg == w.Msg && g.MsgPrefix == w.MsgPrefix
+	case *ServerAuthMsg:
+		g, ok := got.(*ServerAuthMsg)
+		return ok && g != nil && g.Challenge == w.Challenge
+	case *ServerClosedMsg:
+		g, ok := got.(*ServerClosedMsg)
+		return ok && g != nil && g.SubscriptionID == w.SubscriptionID && g.Msg == w.Msg && g.MsgPrefix == w.MsgPrefix
+	case *ServerCountMsg:
+		g, ok := got.(*ServerCountMsg)
+		if !ok || g == nil || g.SubscriptionID != w.SubscriptionID || g.Count != w.Count {
+			return false
+		}
+		if (g.Approximate == nil) != (w.Approximate == nil) {
+			return false
+		}
+		return g.Approximate == nil || *g.Approximate == *w.Approximate
+	}
+	return false
+}
